@@ -14,6 +14,7 @@ CONSTANTS Workload,    \* sequence of [side, ch, cid, len]: messages submitted, 
           MaxDeliver,  \* how often one packet may be delivered before Heal
           HealDt, HealRounds, Bound,
           HealLose,    \* subset of BOOLEAN: may the packets still in flight at Heal be lost / delivered late
+          Reorder,     \* may the network reorder (FALSE: only losses and duplicates of the newest packet)
           RecvAnywhere, \* application receives between any two steps (otherwise only in the good rounds)
           PropsOn,     \* sequence of property ids the observer evaluates
           Export       \* keep a history of steps and predicted events (simulation / tiny scopes only)
@@ -31,7 +32,29 @@ M(side, ch, cid, len) == [side |-> side, ch |-> ch, cid |-> cid, len |-> len]
 WL_RO_small_sliced == <<M("C", 0, 1, 5), M("C", 0, 2, 1201)>>
 WL_RO_3slices == <<M("C", 0, 1, 2401)>>
 WL_RO_two_small == <<M("C", 0, 1, 5), M("C", 0, 2, 7)>>
+Ch_RO100 == <<Ch(0, "RO", 100000, 100)>>
+Ch_RO_RU == <<Ch(0, "RO", 100000, 300), Ch(1, "RU", 100000, 300)>>
+Ch_U_RO == <<Ch(0, "U", 100000, 300), Ch(1, "RO", 100000, 300)>>
+Ch_RO_U == <<Ch(0, "RO", 100000, 300), Ch(1, "U", 100000, 300)>>
+WL_3x700 == <<M("C", 0, 1, 700), M("C", 0, 2, 700), M("C", 0, 3, 700)>>
+WL_small_3slices == <<M("C", 0, 1, 5), M("C", 0, 2, 2401)>>
+WL_sliced_small == <<M("C", 0, 1, 1201), M("C", 0, 2, 5)>>
+WL_one_small == <<M("C", 0, 1, 5)>>
+WL_2400 == <<M("C", 0, 1, 2400)>>
+WL_3600 == <<M("C", 0, 1, 3600)>>
+WL_U_3x100 == <<M("C", 0, 1, 100), M("C", 0, 2, 100), M("C", 0, 3, 100)>>
+WL_U_150_50 == <<M("C", 0, 1, 150), M("C", 0, 2, 50)>>
+WL_U_sliced_small == <<M("C", 0, 1, 1201), M("C", 0, 2, 7)>>
+WL_U_2sliced == <<M("C", 0, 1, 1201), M("C", 0, 2, 1300)>>
+WL_mixed_U_RO == <<M("C", 0, 1, 1201), M("C", 1, 2, 5), M("C", 0, 3, 9)>>
+WL_bidir == <<M("C", 0, 1, 5), M("S", 0, 2, 7)>>
+NoBound == 0 - 1
 P_C01 == <<"C01">>
+P_C03 == <<"C03">>
+P_C08 == <<"C08">>
+P_C09 == <<"C09">>
+P_C14 == <<"C14">>
+P_C15 == <<"C15">>
 P_C02 == <<"C02">>
 P_REL == <<"C01", "C02", "C03", "C08">>
 
@@ -81,6 +104,7 @@ ADeliver(to, fl, ix) ==
     /\ ~ctl.healed
     /\ fl \in 1..Len(w.net[Other(to)]) /\ ix \in 1..Len(w.net[Other(to)][fl])
     /\ Get(w.dl, <<Other(to), fl, ix>>, 0) < MaxDeliver
+    /\ (Reorder \/ \A k \in DOMAIN w.dl : k[1] = Other(to) => (k[2] < fl \/ (k[2] = fl /\ k[3] <= ix)))
     /\ Apply(One(DoDeliver(w, to, fl, ix)), [a |-> "deliver", conn |-> 1, to |-> to, fl |-> fl, ix |-> ix])
     /\ UNCHANGED ctl
 
